@@ -511,6 +511,52 @@ def part_fmp(ctx):
     ctx.corr["fmp_lowering"] = stats
     return stats["accepted"] + stats["restores"]
 
+
+SS_FILES = ["C14/StackSafe.v", "C14/StackSafeProofs.v", "C14/PropsStackSafe.v"]
+
+
+def _stacksafe_eval(ctx, sobs):
+    """StackCleanupSafety (stack_safety.py): the memo tables of every observed back-end run, checked by ss_check
+    (theorem stack_cleanup_safety_sound) + exact ties of the safe heights and frame bounds."""
+    from vlib import c14_stacksafe
+    b = ctx.coq_build_cached(SS_FILES, timeout=600)
+    st = {"contexts": len(sobs.samples), "block_summaries": sum(s_["n_blocks"] for s_ in sobs.samples),
+          "elision_points": sum(s_["n_safe"] for s_ in sobs.samples), "accepted": 0, "rejected": 0, "tie_mismatches": 0,
+          "export_errors": len(sobs.errors)}
+    ctx.corr["stack_cleanup_safety"] = st
+    if sobs.errors:
+        ctx.violation("correspondence-broken", "StackCleanupSafety tables could not be exported: " + sobs.errors[0], {"errors": sobs.errors[:5]})
+    if not b["ok"]:
+        ctx.violation("theorem-broken", f"{b.get('failed_lemma')} in {b['file']}",
+                      {"theorem": b.get("failed_lemma"), "file": b["file"], "coq_output": b["out"][-1500:]})
+        return 0
+    if not sobs.samples:
+        ctx.violation("correspondence-broken", "StackCleanupSafety.verify_codegen was never reached by the observed compiles", {})
+        return 0
+    try:
+        res = c14_stacksafe.evaluate(sobs.samples, shard=max(1, len(sobs.samples) // 10), timeout=900)
+    except RuntimeError as e:
+        ctx.violation("correspondence-broken", "the stack-safety validator could not be evaluated", {"error": str(e)[-1500:]})
+        return 0
+    for s_, r in zip(sobs.samples, res):
+        frs = [(n, g, x) for (n, g), x in zip(s_["frames"], r[1:]) if g != x]
+        if s_["ties"] or frs:
+            st["tie_mismatches"] += 1
+            if st["tie_mismatches"] <= 2:
+                ctx.violation("correspondence-broken", "StackCleanupSafety: a reported number is not the one the model derives from the "
+                              "analysis' own tables (safe height / frame bound)", {"safe_height_ties": s_["ties"][:4], "frame_bounds": frs[:4],
+                                                                                   "entry": s_["entry"]})
+        if r and r[0] == 1:
+            st["accepted"] += 1
+        else:
+            st["rejected"] += 1
+            if st["rejected"] <= 2:
+                ctx.violation("theorem-broken", "stack_cleanup_safety_sound does not apply: the memo tables of StackCleanupSafety are not "
+                              "locally consistent (ss_check = false): a summary misses variables / transients of a successor or callee, or a "
+                              "caller height misses a frame", {"theorem": "stack_cleanup_safety_sound", "block_summaries": s_["bc"][:3000],
+                                                               "function_growth": s_["gc"], "caller_heights": s_["hc"], "safe": s_["safe"][:1500]})
+    return st["accepted"] + st["elision_points"]
+
 def prebuild(ctx):
     """Called by setup_cmd: generate and compile once so that checks can reuse byte-identical inputs."""
     text, _ = gen_eval()
@@ -532,6 +578,7 @@ def prebuild(ctx):
     ctx.coq_build_cached(AFF_FILES[:1], deps=FIX_MODEL_DEPS + FIX_FILES[:1] + ELIM_FILES[:1], timeout=600)
     ctx.coq_build_cached(AFF_FILES[1:], deps=_fix_deps() + FIX_FILES[:2] + ELIM_FILES[:2] + AFF_FILES[:1], timeout=900)
     ctx.coq_build_cached(FMP_FILES, timeout=600)
+    ctx.coq_build_cached(SS_FILES, timeout=600)
     from vlib import c14_pass, c14a_part, c14d_part, c14g_part, c14l_part
     c14a_part.prebuild(ctx)
     c14d_part.prebuild(ctx)
@@ -887,13 +934,16 @@ def part_fixpoint(ctx):
     nfail = 0
     with warnings.catch_warnings():
         warnings.simplefilter("ignore")
-        with c14_fix.Observer(max_insts=600 if ctx.tier == "quick" else 1200, rnd=rnd, fuzz_paths=3 if ctx.tier == "quick" else 8) as obs:
-            for c in progs:
+        from vlib import c14_stacksafe
+        with c14_fix.Observer(max_insts=600 if ctx.tier == "quick" else 1200, rnd=rnd, fuzz_paths=3 if ctx.tier == "quick" else 8) as obs, \
+                c14_stacksafe.Observer(max_samples=60 if ctx.tier == "quick" else 2000) as sobs:
+            for c in [{"src": x} for x in c14_stacksafe.EXTRA_SOURCES] + list(progs):
                 for lvl in levels:
                     try:
                         compile_code(c["src"], output_formats=["bytecode"], settings=Settings(experimental_codegen=True, optimize=lvl))
                     except Exception:
                         nfail += 1
+    n_ss = _stacksafe_eval(ctx, sobs)
     errs = obs.samples.pop("__errors__", [])
     samples = sorted(obs.samples.values(), key=lambda s_: (-s_["nblocks"], s_["name"], s_["ninsts"]))
     trivial = [s_ for s_ in samples if s_["nblocks"] <= 1]
@@ -1015,7 +1065,7 @@ def part_fixpoint(ctx):
     ctx.corr["assert_elimination"] = estats
     if samples:
         ctx.samples.append({"validated_function": samples[0]["name"], "blocks": samples[0]["nblocks"], "instructions": samples[0]["ninsts"]})
-    return stats["validated"] + stats["dynamic_executions"] + estats["validated"] + astats["validated"]
+    return stats["validated"] + stats["dynamic_executions"] + estats["validated"] + astats["validated"] + n_ss
 
 
 def run(ctx):
